@@ -158,6 +158,7 @@ import (
 	"github.com/libp2p/go-libp2p/core/network"
 	"github.com/libp2p/go-libp2p/core/peer"
 	"github.com/libp2p/go-libp2p/core/peerstore"
+	rcmgr "github.com/libp2p/go-libp2p/p2p/host/resource-manager"
 	"github.com/libp2p/go-libp2p/p2p/net/swarm"
 	ma "github.com/multiformats/go-multiaddr"
 
@@ -289,6 +290,30 @@ func run(t *testing.T, tape *simrt.Tape) *common.Outcome {
 		// global math/rand generator, which nothing else pins (see the go:debug line above the package clause)
 		mrand.Seed(int64(11 + udp.DropPermille))
 	}
+	// hole-punch sub-stratum (1/3 of QUIC runs): WithSimultaneousConnect(server) callers punch towards p0's node
+	// address while p0 itself dials D at drawn instants around the end of the punch (HolePunchTimeout 5 s, the
+	// callers' cancel instants); D listens on QUIC (2/3) or is dial-only with quicreuse's reuseport on | off.
+	var dListenQUIC, directDup, alignTarget bool
+	var targetDials, punchCancels []time.Duration
+	punchGrid := []time.Duration{0, 50 * time.Millisecond, time.Second, 4900 * time.Millisecond, 4999 * time.Millisecond, 5 * time.Second, 5001 * time.Millisecond}
+	if w.quic {
+		w.punch = g.Chance(1, 2)
+		w.reuseOff = g.Chance(1, 3)
+		if w.punch {
+			dListenQUIC = g.Chance(2, 3)
+			directDup = g.Bool()
+			alignTarget = g.Bool()
+			if g.Bool() {
+				udp = simnet.UDPConfig{} // a clean wire: the target's handshake completes at the instant it dials
+			}
+			for i, n := 0, 1+g.Int(2); i < n && dListenQUIC; i++ {
+				targetDials = append(targetDials, punchGrid[g.Int(len(punchGrid))])
+			}
+			for i := 0; i < 2; i++ {
+				punchCancels = append(punchCancels, punchGrid[1+g.Int(len(punchGrid)-1)])
+			}
+		}
+	}
 	noise := g.Chance(1, 4)
 	exact := !g.Chance(1, 3)
 	allFail := g.Chance(1, 4)
@@ -308,6 +333,8 @@ func run(t *testing.T, tape *simrt.Tape) *common.Outcome {
 		stall = 0 // quic-go's timers and a clock that runs while its tasks are parked: not worth the risk for determinism
 	}
 	const ownAddr = "/ip4/10.0.0.1/tcp/4001"
+	const ownQUIC = "/ip4/10.0.0.1/udp/4001/quic-v1"
+	const punchAddr = "/ip4/10.1.0.250/udp/4001/quic-v1"
 	keyD, keyQ := simhost.DetKey(1), simhost.DetKey(12)
 	keys := []int{10, 11}
 	for _, k := range keys {
@@ -319,7 +346,7 @@ func run(t *testing.T, tape *simrt.Tape) *common.Outcome {
 	// "slow worker" stratum: the first lookup of a name of p0 takes 1 s and does not notice cancellation, two
 	// addresses hang, the per-peer cap is below the number of hanging addresses, the first caller gives up
 	// early and another one dials within the second (a dial worker outliving its callers while a new one works)
-	slowWorker := g.Chance(1, 8)
+	slowWorker := !w.punch && g.Chance(1, 8)
 	if slowWorker {
 		exact, allFail, latency, stall, fdCap = true, true, false, 0, 0
 		perPeerCap = 1 + g.Int(2)
@@ -328,7 +355,7 @@ func run(t *testing.T, tape *simrt.Tape) *common.Outcome {
 	// the hanging address A is not); round 2: a first caller is refused B and waits on A (the worker stays
 	// alive), a second caller joins either after B's back-off has ended or with WithForceDirectDial: B is
 	// eligible for it and must reach a transport.
-	backoffRejoin := !slowWorker && g.Chance(1, 8)
+	backoffRejoin := !slowWorker && !w.punch && g.Chance(1, 8)
 	if backoffRejoin {
 		exact, allFail, latency, stall, fdCap = true, true, false, 0, 0
 		perPeerCap = []int{8, 2, 3, 4}[g.Int(4)]
@@ -348,6 +375,17 @@ func run(t *testing.T, tape *simrt.Tape) *common.Outcome {
 	}
 	if backoffRejoin {
 		w.plantBackoffPair(g, w.peers[0])
+	}
+	if w.punch {
+		// the punched address is p0's NODE address: the node dials D from the socket listening there (quicreuse
+		// reuses the listen socket whose IP is the preferred source), which is what the hole punch waits for
+		allFail, latency = false, false
+		ps := w.peers[0]
+		tg := &target{kind: tQUIC, key: canon(punchAddr), peer: 0, ip: "10.1.0.250", port: 4001, script: sSucceed}
+		w.targets[tg.key] = tg
+		ps.targets = append(ps.targets, tg)
+		ps.known[tg.key] = true
+		ps.raw = append(ps.raw, tg.key)
 	}
 	nRounds := 1 + g.Int(2)
 	gap := []time.Duration{time.Second, 4 * time.Second, 6 * time.Second, 30 * time.Second}[g.Int(4)]
@@ -407,6 +445,44 @@ func run(t *testing.T, tape *simrt.Tape) *common.Outcome {
 				*cs[1] = c
 			}
 		}
+		if w.punch && r == 0 {
+			for len(cs) < 2 {
+				cs = append(cs, &caller{round: r, idx: len(cs)})
+			}
+			for i := 0; i < 2; i++ {
+				c := caller{round: r, idx: i, peer: 0, simConnect: 2, forceDirect: g.Bool()}
+				if i == 1 {
+					c.start = punchGrid[g.Int(2)]
+				}
+				if g.Chance(2, 3) {
+					c.ctxKind, c.ctxDur = 2, punchCancels[i]
+				}
+				if g.Bool() {
+					rc := c // retried at the instant of the failure: a new dial worker (and punch) next to the dying one
+					rc.idx, rc.start, rc.isRetry = 10+i, 0, true
+					c.retry = &rc
+				}
+				*cs[i] = c
+			}
+			if alignTarget && len(targetDials) > 0 {
+				// the target dials at the very instant the punch ends: when its last caller cancels, else at the
+				// 5 s HolePunchTimeout (= the dial timeout of a private address)
+				end := time.Duration(0)
+				for _, c := range cs[:2] {
+					if c.ctxKind != 2 || c.retry != nil {
+						end = 5 * time.Second
+						break
+					}
+					if e := c.start + c.ctxDur; e > end {
+						end = e
+					}
+				}
+				if end > 5*time.Second {
+					end = 5 * time.Second
+				}
+				targetDials[0] = end
+			}
+		}
 		rounds = append(rounds, cs)
 		for _, c := range cs {
 			callers = append(callers, c)
@@ -415,7 +491,8 @@ func run(t *testing.T, tape *simrt.Tape) *common.Outcome {
 			}
 		}
 	}
-	o.Logf("quic=%v udp=%+v", w.quic, udp)
+	o.Logf("quic=%v udp=%+v punch=%v dialerListensQUIC=%v reuseportOff=%v targetDialsDialerAt=%v directDuplicatePunch=%v",
+		w.quic, udp, w.punch, dListenQUIC, w.reuseOff, targetDials, directDup)
 	o.Logf("security=%s exact=%v allFail=%v stall=%d latency=%v perPeerCap=%d fdCap=%d rounds=%d gap=%v keepConns=%v slowWorker=%v backoffRejoin=%v",
 		secu, exact, allFail, stall, latency, perPeerCap, fdCap, nRounds, gap, keepConns, slowWorker, backoffRejoin)
 	for _, ps := range w.peers {
@@ -448,6 +525,10 @@ func run(t *testing.T, tape *simrt.Tape) *common.Outcome {
 		dialsNet       []simnet.DialRecord
 		faultsFired    map[string]int
 		udpCounts      map[string]int
+		oneSided       []string
+		socketsLeft    []string
+		scopesLeft     string
+		targetDialLog  []string
 	)
 	timeless := stall > 0 // virtual-time reasoning is off
 
@@ -469,6 +550,15 @@ func run(t *testing.T, tape *simrt.Tape) *common.Outcome {
 			os.Setenv("LIBP2P_SWARM_FD_LIMIT", strconv.Itoa(fdCap))
 		} else {
 			os.Unsetenv("LIBP2P_SWARM_FD_LIMIT")
+		}
+		if w.quic {
+			rm, err := rcmgr.NewResourceManager(rcmgr.NewFixedLimiter(rcmgr.InfiniteLimits), rcmgr.WithMetricsDisabled())
+			if err != nil {
+				o.Trouble = "rcmgr: " + err.Error()
+				return
+			}
+			w.rcmgr = rm
+			defer rm.Close()
 		}
 		D, err := newDialer(n, w, keyD, "10.0.0.1", secu,
 			swarm.WithUDPBlackHoleSuccessCounter(nil), swarm.WithIPv6BlackHoleSuccessCounter(nil),
@@ -516,6 +606,13 @@ func run(t *testing.T, tape *simrt.Tape) *common.Outcome {
 				o.Trouble = "dialer listen: " + err.Error()
 				return
 			}
+		}
+		if dListenQUIC {
+			if err := D.swarm.Listen(ma.StringCast(ownQUIC)); err != nil {
+				o.Trouble = "dialer listen quic: " + err.Error()
+				return
+			}
+			T[0].PS.AddAddrs(D.id, []ma.Multiaddr{ma.StringCast(ownQUIC)}, peerstore.PermanentAddrTTL)
 		}
 		byNetKey := map[string]*target{}
 		lossy := map[string]*target{}
@@ -682,6 +779,44 @@ func run(t *testing.T, tape *simrt.Tape) *common.Outcome {
 			bound = 24 * time.Hour
 		}
 
+		sideLeft := 0
+		sideDone := make(chan struct{})
+		side := func(name string, f func()) {
+			sideLeft++
+			simrt.GoNamed(name, func() {
+				f()
+				sideLeft--
+				if sideLeft == 0 {
+					close(sideDone)
+				}
+			})
+		}
+		for i, d := range targetDials {
+			side(fmt.Sprintf("target-dials-dialer%d", i), func() {
+				simrt.TimeSleep(d)
+				ctx, cancel := context.WithTimeout(context.Background(), 10*time.Second)
+				at := simrt.Now()
+				_, err := T[0].Swarm.DialPeer(ctx, D.id)
+				cancel()
+				targetDialLog = append(targetDialLog, fmt.Sprintf("p0 dials D at %v: returned at %v err=%v", at, simrt.Now(), err))
+			})
+		}
+		if directDup && D.qt != nil {
+			// two overlapping hole punches to one (address, peer) handed to the transport itself: the second is
+			// turned away ("already punching hole"); both must give back what they took
+			dead := ma.StringCast("/ip4/10.9.9.9/udp/4001/quic-v1")
+			for i := 0; i < 2; i++ {
+				side(fmt.Sprintf("direct-punch%d", i), func() {
+					ctx, cancel := context.WithTimeout(network.WithSimultaneousConnect(context.Background(), false, "c05"), time.Second)
+					c, err := D.qt.Dial(ctx, dead, w.qID)
+					cancel()
+					if c != nil {
+						c.Close()
+					}
+					targetDialLog = append(targetDialLog, fmt.Sprintf("direct punch %d returned at %v err=%v", i, simrt.Now(), err))
+				})
+			}
+		}
 		for r, cs := range rounds {
 			if !runCallers(cs, bound) {
 				timedOut = true
@@ -704,10 +839,46 @@ func run(t *testing.T, tape *simrt.Tape) *common.Outcome {
 			}
 		}
 		// ---- residue ---------------------------------------------------------------------------
+		if sideLeft > 0 {
+			simrt.Recv("side-tasks", (<-chan struct{})(sideDone))
+		}
+		simrt.WaitIdle()
 		closeConns()
+		if w.quic {
+			// an inbound QUIC connection whose last handshake datagram was lost or delayed reaches D's swarm
+			// after the remote's dial has returned: close what D lists once more after every handshake timeout
+			simrt.TimeSleep(30 * time.Second)
+			simrt.WaitIdle()
+			closeConns()
+		}
 		simrt.WaitIdle()
-		simrt.TimeSleep(3 * time.Minute) // past dial (15 s), accept (15 s), negotiation and keep-alive timeouts
+		simrt.TimeSleep(3 * time.Minute) // past dial (15 s), accept (15 s), negotiation, keep-alive and QUIC idle (30 s) timeouts, quicreuse's gc (10 s unused, every 30 s)
 		simrt.WaitIdle()
+		if w.quic {
+			// every connection D listed was closed 3 minutes ago: nobody may still hold a connection to D (a
+			// one-sided connection is an attempt that remained), D's resource manager reads zero, D has no UDP
+			// socket besides its listening one
+			for i, nd := range append(append([]*simhost.Node{}, T...), Q) {
+				if cs := nd.Swarm.ConnsToPeer(D.id); len(cs) > 0 {
+					who := "the honest other peer"
+					if i < len(T) {
+						who = fmt.Sprintf("p%d", i)
+					}
+					oneSided = append(oneSided, fmt.Sprintf("%s lists %d connection(s) to D (%s), D lists %d", who, len(cs), cs[0].RemoteMultiaddr(), len(D.swarm.Conns())))
+				}
+			}
+			if st, ok := w.rcmgr.(rcmgr.ResourceManagerState); ok {
+				x := st.Stat()
+				if (x.System != network.ScopeStat{}) || (x.Transient != network.ScopeStat{}) {
+					scopesLeft = fmt.Sprintf("system=%+v transient=%+v", x.System, x.Transient)
+				}
+			}
+			for _, sk := range n.UDPSockets() {
+				if strings.HasPrefix(sk, "10.0.0.1:") && !(dListenQUIC && sk == "10.0.0.1:4001") {
+					socketsLeft = append(socketsLeft, sk)
+				}
+			}
+		}
 		for _, rec := range w.recs {
 			if rec.end == 0 {
 				stillRunning = append(stillRunning, rec.String())
@@ -830,6 +1001,9 @@ func run(t *testing.T, tape *simrt.Tape) *common.Outcome {
 		callers = kept
 	}
 	// ---- history ---------------------------------------------------------------------------------
+	for _, l := range targetDialLog {
+		o.Logf("%s", l)
+	}
 	for _, r := range w.recs {
 		o.Logf("dial %s", r)
 	}
@@ -865,7 +1039,7 @@ func run(t *testing.T, tape *simrt.Tape) *common.Outcome {
 	}
 	checkLiveness(o, w, callers, exact && allFail && !timeless && !latency, fdCap)
 	checkAnswered(o, w, callers, exact && !timeless)
-	checkSharedSuccess(o, w, callers, !timeless)
+	checkSharedSuccess(o, w, callers, !timeless && !w.punch) // with inbound connections a caller may be served from the connection table while others still dial
 	checkRecords(o, w, callers, perPeerCap, fdCap, timeless)
 
 	// (7) residue
@@ -884,6 +1058,15 @@ func run(t *testing.T, tape *simrt.Tape) *common.Outcome {
 			}
 		}
 		o.Violate("C05/goroutine-left/"+cls, "goroutines that did not exist before the first round, 3 virtual minutes after the last caller returned and every connection was closed: %v", leftGoroutines)
+	}
+	for _, x := range oneSided {
+		o.Violate("C05/one-sided-connection-left", "3 virtual minutes after every caller had returned and every connection D listed was closed: %s", x)
+	}
+	if scopesLeft != "" {
+		o.Violate("C05/resource-scope-not-released", "3 virtual minutes after every caller had returned and every connection D listed was closed, D's resource manager reads %s", scopesLeft)
+	}
+	if len(socketsLeft) > 0 {
+		o.Violate("C05/udp-socket-left", "3 virtual minutes after every caller had returned and every connection was closed D still has UDP socket(s) %v besides its listening one (reuseport off=%v)", socketsLeft, w.reuseOff)
 	}
 	o.Violations = append(o.Violations, probeProblems...)
 	var resid []string
@@ -949,6 +1132,33 @@ func run(t *testing.T, tape *simrt.Tape) *common.Outcome {
 		}
 	}
 	probes(o, w, callers, perPeerCap, fdCap)
+	if w.punch {
+		// hole-punch sub-stratum
+		for _, r := range w.recs {
+			if r.addr != canon(punchAddr) || r.end == 0 {
+				continue
+			}
+			if r.ok {
+				o.Probe("hole-punch-got-the-inbound-connection")
+			}
+			for _, d := range targetDials {
+				if r.endAt == d && !r.ok {
+					o.Probe("hole-punch-gave-up-at-instant-of-target-dial")
+				}
+				if r.endAt == d && r.ok {
+					o.Probe("hole-punch-served-at-instant-of-target-dial")
+				}
+			}
+		}
+		for _, l := range targetDialLog {
+			if strings.Contains(l, "already punching hole") {
+				o.Probe("overlapping-hole-punch-turned-away")
+			}
+			if strings.HasPrefix(l, "p0 dials D") && strings.HasSuffix(l, "err=<nil>") {
+				o.Probe("target-dialed-dialer")
+			}
+		}
+	}
 	var sig strings.Builder
 	fmt.Fprintf(&sig, "%s|%v|%v|%d|%d|%v;", secu, exact, allFail, perPeerCap, fdCap, w.quic)
 	for _, c := range callers {
@@ -1577,6 +1787,11 @@ func probes(o *common.Outcome, w *world, callers []*caller, perPeerCap, fdCap in
 	for _, c := range callers {
 		if tg := w.targets[c.connAddr]; c.ok && !c.probe && tg != nil && tg.kind == tQUIC {
 			o.Probe("caller-got-quic-connection")
+		}
+	}
+	for _, r := range w.recs {
+		if r.kind == tQUIC && r.err != nil && strings.Contains(r.err.Error(), "already punching hole") {
+			o.Probe("overlapping-hole-punch-turned-away")
 		}
 	}
 }
